@@ -1760,6 +1760,16 @@ fn verify_nsec(
             || nsec_data.type_set().contains(RecordType::CNAME)
         {
             nsec1_yield(Proof::Bogus, "direct match, record type should be present")
+        } else if nsec_data.type_set().contains(RecordType::NS)
+            && !nsec_data.type_set().contains(RecordType::SOA)
+            && query.query_type != RecordType::DS
+        {
+            // RFC 6840 4.1: an NSEC from the parent side of a zone cut only proves the absence of
+            // DS records; it says nothing about other types at, or any name below, the cut.
+            nsec1_yield(
+                Proof::Bogus,
+                "direct match is an ancestor delegation NSEC and the query type is not DS",
+            )
         } else if response_code == ResponseCode::NoError && !have_answer {
             nsec1_yield(Proof::Secure, "direct match")
         } else {
